@@ -770,7 +770,7 @@ class Pkg:
                 return out
             rt = self.ev(f.value, sc)
             unknown = False
-            for a in rt:
+            for a in sorted(rt, key=repr):
                 if a == "top":
                     unknown = True
                 elif isinstance(a, tuple) and a[0] == "obj":
@@ -1999,7 +1999,7 @@ SENS = "sensitive"
 FLOWS = "flows"
 UNDET = "undetermined"
 
-ORDER_FREE_FUNCS = {"len", "bool", "any", "all", "set", "frozenset", "isinstance", "type", "id", "Counter"}
+ORDER_FREE_FUNCS = {"len", "bool", "any", "all", "set", "frozenset", "isinstance", "type"}
 TRANSPARENT_FUNCS = {"list", "tuple", "iter", "reversed", "enumerate", "zip", "map", "filter", "deque"}
 FORMAT_FUNCS = {"str", "repr", "print", "format", "ascii"}
 SET_MUTATORS = {"add", "discard", "remove", "update", "clear", "difference_update", "intersection_update",
